@@ -465,7 +465,8 @@ func init() {
 		par := fs.Int("par", 8, "traces run in parallel")
 		_ = fs.Parse(args)
 		kernel.InstallHooks()
-		ro.SetVerifHook(rec.NewYielder(*seed).Hook)
+		yh := rec.NewYielder(*seed).Hook
+		ro.SetVerifHook(func(point string, obj any) { kernel.CollectHook(point, obj); yh(point, obj) })
 		r := rand.New(rand.NewSource(*seed))
 		scs := make([]kernel.CollectScenario, *n)
 		res := make([][]rec.Ev, *n)
